@@ -32,7 +32,28 @@ Definition out_in := (bytes * N * N * bytes * option (N * bytes))%type.
 Inductive case :=
 | CTx (id ver ty pv : N) (payload : bytes) (attrs : list (N * bytes)) (ins : list (bytes * N * N))
       (outs : list out_in) (lock : N) (progs : list (bytes * bytes)) (ulen : N) (full : bytes)
-| CBlock (id : N) (hv : N) (prev root : bytes) (tm bits nonce height : N) (txlens : list N) (full : bytes).
+| CBlock (id : N) (hv : N) (prev root : bytes) (tm bits nonce height : N) (txlens : list N) (full : bytes)
+(* WriteVarUint v = enc in Go, ReadVarUint enc = (dec_ok, dec_v) in Go *)
+| CVarint (id v : N) (enc : bytes) (dec_ok : bool) (dec_v : N)
+(* a transaction generated identically on both sides with one field / list of n
+   elements (n at the varint width boundaries); Go reports the length and a
+   checksum of Serialize and whether the bytes decoded back to the same value *)
+| CGen (id kind n glen gsum : N) (gok : bool).
+
+From ELA Require Import lib.VarInt.
+
+Fixpoint gdata (k : nat) (i : N) : bytes :=
+  match k with O => [] | S k' => ((i * 7 + 3) mod 251) :: gdata k' (i + 1) end.
+Definition bsum (bs : bytes) : N := fold_left (fun a b => (a * 31 + b + 1) mod 4294967291) bs 0.
+
+Definition gen_tx (kind n : N) : tx :=
+  let d := gdata (N.to_nat n) 0 in
+  match kind with
+  | 0 => mkTx 9 2 0 VUnit [(129, d)] [] [] 0 []                       (* TransferAsset, Memo attribute of n bytes *)
+  | 1 => mkTx 9 7 2 (VL (map VN d)) [] [] [] 0 []                      (* WithdrawFromSideChain v2, n signers *)
+  | 2 => mkTx 9 2 0 VUnit [] [] [] 0 (repeat ([], []) (N.to_nat n))    (* n empty programs *)
+  | _ => mkTx 9 3 0 (VPair (VB [97]) (VB d)) [] [] [] 0 []             (* Record with n bytes of content *)
+  end.
 
 Definition dec_all (f : fmt) (c : ctx) (bs : bytes) : option value :=
   match decode f c bs with (Ok (v, []), _) => Some v | _ => None end.
@@ -80,7 +101,26 @@ Definition check (cs : case) : option N :=
       | _ => false
       end in
     if ok then None else Some id
+  | _ => None
+  end.
+
+Definition check2 (cs : case) : option N :=
+  match cs with
+  | CVarint id v enc dok dv =>
+    let ok := bytes_eqb (varint_enc v) enc && dok && (dv =? v) &&
+              match varint_dec enc with Some (v', []) => v' =? v | _ => false end in
+    if ok then None else Some id
+  | CGen id kind n glen gsum gok =>
+    let t := gen_tx kind n in
+    let bs := encode_tx t in
+    let ok := gok && wf_tx t && (N.of_nat (length bs) =? glen) && (bsum bs =? gsum) &&
+              match decode_tx bs with
+              | Ok (t', []) => value_eqb (tx_v t') (tx_v t)
+              | _ => false
+              end in
+    if ok then None else Some id
+  | _ => check cs
   end.
 
 Definition mismatches (cs : list case) : list N :=
-  flat_map (fun c => match check c with Some i => [i] | None => [] end) cs.
+  flat_map (fun c => match check2 c with Some i => [i] | None => [] end) cs.
